@@ -74,13 +74,13 @@ def _bases():
 BASES = None
 
 
-def make_class(kind, spec, service_wrapped=False):
+def make_class(kind, spec, service_wrapped=False, ephemeral=False):
     """A class whose __init__ has exactly the signature described by spec."""
     global BASES
     if BASES is None:
         BASES = _bases()
     key = (kind, repr(spec), service_wrapped)
-    if key in _CLASS_CACHE:
+    if key in _CLASS_CACHE and not ephemeral:
         return _CLASS_CACHE[key]
     params = ["self"]
     nonleaf = kind in ("controller", "decorator")
@@ -114,7 +114,8 @@ def make_class(kind, spec, service_wrapped=False):
         from cobald.daemon.runners.service import service
 
         cls = service(flavour=trio)(cls)
-    _CLASS_CACHE[key] = cls
+    if not ephemeral:
+        _CLASS_CACHE[key] = cls
     return cls
 
 
@@ -444,7 +445,8 @@ def gen_eager(rnd, spec):
         kind = rnd.choice(["controller", "decorator", "pool", "composite"])
         if kind == "composite":
             sp["varargs"] = True
-        target = {"kind": kind, "spec": sp, "service": rnd.random() < 0.25}
+        # ephemeral: the class only lives for this case and is garbage collected afterwards (its address gets reused)
+        target = {"kind": kind, "spec": sp, "service": rnd.random() < 0.25, "ephemeral": rnd.random() < 0.4}
         from_names = [n for n, _ in sp["pos"] + sp["kwonly"]]
         npos_max = len(sp["pos"]) + 2
     calls = []
@@ -475,7 +477,9 @@ def run_eager(case, result):
         cls, leaf, spec = shipped()[t["shipped"]]
         label = t["shipped"]
     else:
-        cls = make_class(t["kind"], t["spec"], t["service"])
+        cls = make_class(t["kind"], t["spec"], t["service"], ephemeral=t.get("ephemeral", False))
+        if t.get("ephemeral"):
+            result.count("eager_cases_with_short_lived_class")
         leaf = t["kind"] in ("pool", "composite")
         spec = t["spec"]
         label = "generated %s %r" % (t["kind"], spec)
@@ -528,6 +532,11 @@ def run_eager(case, result):
                                  % (idx, label, new_pos, new_kw, reason), mech))
                 break
             # rejected as it must be: the previous template stays usable
+    if "shipped" not in t and t.get("ephemeral"):
+        import gc
+
+        del cls, tmpl
+        gc.collect()
     return problems
 
 
@@ -676,7 +685,7 @@ def run_shard(spec):
 def finish(total, tier):
     for name in ("chains_checked", "chains_rebuilt_from_reused_templates", "chains_tail_instance", "chains_tail_template", "chains_tail_curried",
                  "parenthesisations_exhaustive", "template_calls_checked", "calls_bindable", "calls_unbindable",
-                 "shipped_chains_checked"):
+                 "shipped_chains_checked", "eager_cases_with_short_lived_class"):
         if not total.counters.get(name) and not total.violations:
             total.inconc("monitor never observed: " + name)
 
